@@ -9,7 +9,8 @@ from harness import core, ir, r1cs, opgrid
 RULE = ("(a) cell sweep: for every (operation x operand-type combination x plain-constant operands x guard shape) all "
         "runs over a pool of secret operand values - valid ones in normal mode, valid and invalid ones under "
         "ignore_errors, and both values of every enclosing guard - must produce one canonical trace (variable kinds in "
-        "order, constraints with coefficients mod p, wire expressions of the results). (b) random programs: a generated "
+        "order, constraints with coefficients mod p, wire expressions of the results). (a') the same for reads and writes of an array at secret and constant indices, comparing also the wire "
+        "expressions the array holds afterwards. (b) random programs: a generated "
         "program is re-run with the same inputs under ignore_errors and with re-drawn secret inputs (normal and "
         "ignore_errors); every completing run must have the canonical trace of the first. Non-trivial = the compared "
         "runs differ in a secret value that feeds a comparison, division, index, bit decomposition or guard and the "
@@ -98,6 +99,59 @@ def grid_shard(cells, b, p):
                                               "msg": "%s on %s: %s between\n  %r and\n  %r" % (
                                                   name, ts, describe_diff(ref_c, c), ref_case["stmts"], prog["stmts"]),
                                               "key": key}
+    stats.violations = list(found.values())
+    return stats
+
+
+def array_grid_shard(b, p):
+    """secret-index and constant-index reads and writes of a 3-element array (and a 2x2 array), under every guard shape:
+    one canonical trace - including the wire expressions the array holds afterwards - whatever the secret values are"""
+    stats = core.Stats()
+    found = {}
+    cfg = {"p": p, "b": b, "r": 2, "ignore": False}
+    contents = [[5, 6, 7], [0, 0, 0], [7, 5, -1]]
+    for opname, idx_secret, val_secret, cidx, cval in itertools.product(("aget", "aset"), (True, False), (True, False), (0, 2), (4, 0)):
+        if opname == "aget" and (val_secret or cval):
+            continue
+        idxs = [0, 1, 2, -1, 3] if idx_secret else [cidx]
+        vals = ([4, 0, 9] if val_secret else [cval]) if opname == "aset" else [None]
+        for shape, modes in (("flat", ["normal", "ignore"]), ("g1", ["guard0", "guard1"]), ("g2", ["guard00", "guard01", "guard10", "guard11"])):
+            ref_c = ref_case = None
+            for cont, k, v, mode in itertools.product(contents, idxs, vals, modes):
+                stmts = [["in", "priv", "I", x] for x in cont] + [["op", "array", [0, 1, 2]]]
+                stmts.append(["in", "priv", "I", k] if idx_secret else ["const", k])
+                refs = [3, 4]
+                if opname == "aset":
+                    stmts.append(["in", "pub", "I", v] if val_secret else ["const", v])
+                    refs.append(5)
+                c2 = dict(cfg)
+                inner = [["op", opname, refs]]
+                if mode == "ignore":
+                    c2["ignore"] = True
+                elif mode.startswith("guard"):
+                    gs = []
+                    for ch in mode[5:]:
+                        stmts.append(["in", "priv", "B", int(ch)])
+                        gs.append(len(stmts) - 1)
+                    for g in reversed(gs):
+                        inner = [["guard", "lc", g, inner]]
+                prog = {"cfg": c2, "stmts": stmts + inner}
+                m = ir.run_program(prog)
+                if m.raised is not None:
+                    stats.case(None, False, ("run:raised",))
+                    continue
+                c = canon_of(m)
+                stats.case([opname, "secret-index" if idx_secret else "const-index", k, v, mode], len(c[1]) > 0 or mode != "normal",
+                           ("op:" + opname, "mode:" + mode, "array-cell"), sample_cap=2)
+                if ref_c is None:
+                    ref_c, ref_case = c, prog
+                elif c != ref_c:
+                    key = "array.%s.%s.%s.%s" % (opname, "sidx" if idx_secret else "cidx", "sval" if val_secret else "cval", shape)
+                    if key not in found:
+                        found[key] = {"case": {"kind": "pair", "a": ref_case, "b": prog},
+                                      "msg": "%s with a %s index: %s between\n  %r and\n  %r" % (
+                                          opname, "secret" if idx_secret else "constant", describe_diff(ref_c, c), ref_case["stmts"], prog["stmts"]),
+                                      "key": key}
     stats.violations = list(found.values())
     return stats
 
@@ -211,6 +265,7 @@ def run(ctx):
     for b, p in grids:
         total.merge_json(core.run_shards("harness.checks.c06", "grid_shard",
                                          [dict(cells=cells[i::16], b=b, p=p) for i in range(16)]).to_json())
+    total.merge_json(core.run_shards("harness.checks.c06", "array_grid_shard", [dict(b=b, p=p) for b, p in grids]).to_json())
     total.merge_json(core.run_shards("harness.checks.c06", "shard", shards).to_json())
     total.extra["cell_sweep"] = {"cells": len(cells), "grids": [list(g) for g in grids]}
     ctx.stats = total
